@@ -19,6 +19,7 @@ type Targets struct {
 // A caller that takes the targets while it holds the lock that makes its change visible, and sends the event later,
 // sends it to exactly the listeners that cannot have seen the change yet.
 func (b *Bus) Targets() Targets {
+	verifAt("send.snap.begin", b)
 	// create a copy of the listeners so avoid holding the mutex a long time
 	var listeners []*listener
 	b.listenerM.RLock()
